@@ -2,6 +2,7 @@
 
 from ..actors import World, Item
 from ..loop import Sim, GcGuard
+from ..vclock import VCLOCK
 from ..runner import Outcome
 from ..tools import TOOLS, AGGS, Gen, ABSENT, draw_cfg, TOOL_NAMES, AGG_NAMES
 from ..tooldiff import Run
@@ -28,9 +29,11 @@ COMPONENTS_AIO = dict(
 def run_sim(sim):
     """Run the simulation with the asyncgen finaliser hook installed and gc off"""
     sim.install()
+    VCLOCK.active = True
     try:
         sim.run()
     finally:
+        VCLOCK.active = False
         sim.uninstall()
     if sim.capped or sim.deadlock:
         sim.close_leftovers()
@@ -68,6 +71,7 @@ def make_lock(sim, policy=0, acquire_suspends=False, release_suspends=False):
 
 
 def new_sim(st, interrupts=True, max_steps=20000, backend="sim"):
+    VCLOCK.reset()
     if backend == "aio":
         from ..aioloop import AioSim
 
@@ -95,6 +99,10 @@ def finish_outcome(out, st, sim, ctx):
     out.sim_time = sim.now
     out.trace = sim.trace
     out.capped = sim.capped
+    if getattr(sim, "n_yielded", 0) != getattr(sim, "n_received", 0):
+        # a user awaitable suspended (yielded its token) and what it yielded never arrived at the loop:
+        # somebody in between drove it by hand
+        sim.breach("token_never_reached_loop", sim.n_yielded - sim.n_received)
     out.breaches = len(sim.breaches)
     if sim.breaches:
         out.probes["c17_breach_seen"] = 1
@@ -103,6 +111,8 @@ def finish_outcome(out, st, sim, ctx):
     f["interrupt_absorbed"] = sim.n_interrupts_absorbed
     f["suspension"] = sim.n_tokens
     f["asyncgen_finalizer"] = sim.n_finalizers
+    if VCLOCK.reads:
+        out.probes["code_under_test_read_the_clock"] = 1
     if sim.n_interrupts:
         out.fault_free = False
     return out
